@@ -57,6 +57,15 @@ CLAIMS = {
          "Decides: the scope classification table (flags x block kind x enclosing sets -> scope), the definition table (AddDef), scope x context -> opcode family and index space (NameOp), child-block analysis on copies of the parent's sets, "
          "cell/free slot layout agreement between compiler, closure builder and EvalCode. Does not decide: run-time lookup order in LOAD_NAME/LOAD_GLOBAL for a particular program (values), name mangling (unimplemented in gpython).",
          "DESIGN.md §4 C03"),
+ "C13": ("may-alias (storage-sharing) propagation on go/ssa with per-function summaries; typed-AST structure rules on the slice normaliser and its consumers",
+         "Decides: the clause 'results never alias a mutable operand' as a census — no function of py/vm/stdlib returns or keeps storage shared with a container argument unless on a reviewed list; no view of the VM value stack becomes an object; no append onto an immutable operand's array. "
+         "Structural necessary conditions of the index model: start/stop normalised symmetrically with clips equal to the defaults of the step sign; extended slices walked direction-agnostically; start/stop ordered before use as Go slice bounds; one normalisation point (only Slice reads its fields); concatenation copies laid out cumulatively. "
+         "Does not decide: the values of indexing/slicing results for all indices (arithmetic on run-time integers), comparison/ordering/membership results, str/bytes specifics, exception choice.",
+         "DESIGN.md §4 C13"),
+ "C17": ("may-alias (storage-sharing) propagation on go/ssa with per-function summaries; identity obligations for in-place operators and the list iterator",
+         "Decides: the aliasing clause — copies (list(x), x+y, x[a:b], x.copy(), dict(**kw), set(x), tuple(list), type(name,bases,ns)) never share backing storage with their operands, f(**d) passes a new dict, in-place operators of mutable containers evaluate to the receiver, the list iterator refers to the list itself. "
+         "Does not decide: equality of every observation with a reference model over histories (values), dict/set element semantics, mutation of a container while it is its own operand (e.g. a[2:3] = a).",
+         "DESIGN.md §4 C17"),
 }
 _todo = "rules for this property are designed (DESIGN.md §4) but not yet implemented in this revision of the checker"
-NA = {p: _todo for p in ["C07","C13","C14","C15","C16","C17"]}
+NA = {p: _todo for p in ["C07","C14","C15","C16"]}
